@@ -7,6 +7,8 @@ package main
 
 import (
 	"context"
+	"fmt"
+	"os"
 	"encoding/json"
 	"net/http"
 	"net/http/httptest"
@@ -81,7 +83,8 @@ func goLeaked(pre map[int64]bool) int {
 	for {
 		n := 0
 		for _, g := range dump() {
-			if !pre[g.id] && strings.Contains(g.stack, apiPkg+"Go.func1") {
+			// a goroutine still inside the harness' own function is not blocked by the library
+			if !pre[g.id] && strings.Contains(g.stack, apiPkg+"Go.func1") && !strings.Contains(g.stack, "(*run).goFunc") {
 				n++
 			}
 		}
@@ -91,6 +94,13 @@ func goLeaked(pre map[int64]bool) int {
 		if n == last {
 			stable++
 			if stable >= 40 {
+				if os.Getenv("C15_DEBUG") != "" {
+					for _, g := range dump() {
+						if !pre[g.id] && strings.Contains(g.stack, apiPkg+"Go.func1") {
+							fmt.Fprintf(os.Stderr, "LEAK goroutine %d [%s]%s\n", g.id, g.state, g.stack)
+						}
+					}
+				}
 				return n
 			}
 		} else {
@@ -118,16 +128,31 @@ func runCaseWS(roots []*fnode, gmp int, batchSpins [nBatch]int, events, which in
 	rs.syncMode = true
 	syncResp := serve(rs, query)
 
+	altResp, hasAlt := altReference(roots, b, query, syncResp)
+
 	prev := setGMP(gmp)
 	defer setGMP(prev)
 
 	pre := gset()
+	plainQuery := events == 0 // a query (not a subscription) over the WebSocket: one execution
+	if plainQuery {
+		events, which = 1, 0
+	}
 	holder := &wsHolder{stream: make(chan *nodeObj)}
 	for e := 0; e < events; e++ {
 		r := newRun(b.items, b.conns)
 		r.batchSpins = batchSpins
+		r.holdSpan = e < events-1
+		if e > 0 {
+			r.prevSpan = holder.runs[e-1]
+		}
 		holder.runs = append(holder.runs, r)
 	}
+	defer func() {
+		for _, r := range holder.runs {
+			r.releaseSpan()
+		}
+	}()
 	srv := httptest.NewServer(http.HandlerFunc(func(w http.ResponseWriter, req *http.Request) {
 		api.ServeGraphQLWS(w, req.WithContext(context.WithValue(req.Context(), runKey, holder)))
 	}))
@@ -157,7 +182,11 @@ func runCaseWS(roots []*fnode, gmp int, batchSpins [nBatch]int, events, which in
 	if _, ok := readType("connection_ack"); !ok {
 		panic("harness: no connection_ack")
 	}
-	start, _ := json.Marshal(map[string]interface{}{"query": "subscription{ev" + query + "}"})
+	wsQuery := "subscription{ev" + query + "}"
+	if plainQuery {
+		wsQuery = query
+	}
+	start, _ := json.Marshal(map[string]interface{}{"query": wsQuery})
 	conn.WriteJSON(wsMsg{Id: "1", Type: "start", Payload: start})
 
 	hang := false
@@ -165,15 +194,21 @@ func runCaseWS(roots []*fnode, gmp int, batchSpins [nBatch]int, events, which in
 	asyncResp := ""
 	differing := ""
 	for e := 0; e < events && !hang; e++ {
-		select {
-		case holder.stream <- &nodeObj{item: -1}:
-		case <-time.After(10 * time.Second):
-			hang = true
+		if !plainQuery {
+			select {
+			case holder.stream <- &nodeObj{item: -1}:
+			case <-time.After(10 * time.Second):
+				hang = true
+			}
 		}
 		var resp string
 		if !hang {
 			if m, ok := readType("data"); ok {
-				resp = canonicalWS(m.Payload)
+				if plainQuery {
+					resp = canonical(m.Payload)
+				} else {
+					resp = canonicalWS(m.Payload)
+				}
 			} else {
 				hang = true
 			}
@@ -187,7 +222,7 @@ func runCaseWS(roots []*fnode, gmp int, batchSpins [nBatch]int, events, which in
 		if e == which {
 			asyncResp = resp
 		}
-		if resp != syncResp && differing == "" {
+		if resp != syncResp && !(hasAlt && resp == altResp) && differing == "" {
 			differing = resp
 		}
 	}
@@ -219,12 +254,13 @@ func runCaseWS(roots []*fnode, gmp int, batchSpins [nBatch]int, events, which in
 	}
 	return sexp.T("case",
 		sexp.T("gmp", sexp.Int(gmp)),
-		sexp.T("ws", sexp.Int(events)),
-		sexp.T("query", sexp.Str("subscription{ev"+query+"}")),
+		sexp.T("ws", sexp.Int(map[bool]int{true: 0, false: events}[plainQuery])),
+		sexp.T("query", sexp.Str(wsQuery)),
 		sexp.T("items", sexp.L(items...)),
 		sexp.T("trace", sexp.L(tr...)),
 		sexp.T("delivered", sexp.L(r.deliveries...)),
 		sexp.T("resp", sexp.Str(asyncResp), sexp.Str(syncResp)),
+		sexp.T("respalt", altNode(altResp, hasAlt)...),
 		sexp.T("leak", sexp.Int(leak)),
 		sexp.T("hang", sexp.Bool(hang)),
 		sexp.T("problems", sexp.L(probs...)))
